@@ -3,6 +3,7 @@
 // ReusableVector<MonotonicString>, Elem (a harness type that implements the reuse
 // protocol and keeps a registry of live objects) and a protobuf message on a
 // SwissMemoryResource. libFuzzer + ASan.
+#include "known.h"
 #include <babylon/reusable/manager.h>
 #include <babylon/reusable/string.h>
 #include <babylon/reusable/vector.h>
@@ -299,10 +300,7 @@ struct ProtoTr {
 bool g_excluded_f8 = false;
 bool known_f8_value_argument_aliases_destination() {
   static int allow = -1;
-  if (allow < 0) {
-    const char* e = getenv("VF_ALLOW_KNOWN");
-    allow = (e && *e && *e != '0') ? 1 : 0;
-  }
+  if (allow < 0) allow = vf_allow_known("f8") ? 1 : 0;
   if (allow == 1) return false;
   if (!g_excluded_f8) vfz::label("excluded_known_f8");
   g_excluded_f8 = true;
